@@ -697,6 +697,19 @@ def rule_ended_stream_is_silent(ctx):
 
 
 
+
+def _flat(t):
+    """all sub-terms of an interpreter term (epochs stripped)"""
+    t = strip_epoch(t)
+    out = [t]
+    if isinstance(t, tuple):
+        for x in t:
+            if isinstance(x, tuple):
+                out.extend(_flat(x))
+    return out
+
+
+
 def rule_nothing_before_the_request_frame(ctx):
     """C08.m  Every stream an endpoint opens begins with its request frame.  request_stream() / request_channel() hand
     the application a Publisher that is also the Subscription; the request frame goes out in subscribe().  An
@@ -731,6 +744,21 @@ def rule_nothing_before_the_request_frame(ctx):
                 em = m.emitted(p)
                 if em and out is None:
                     out = em[0][0]
+            if out is None and changed and en.func.node.name == 'request':
+                # ... and the credit is not lost: the request frame that is still to be written carries it - the value
+                # that reaches the initial request-n mentions the n that was asked for
+                npar = ('param', en.func.qualname, en.func.params()[1])
+                carried = False
+                for p in m.run(en, pre0):
+                    for e in p.events:
+                        if e.kind == 'store' and e.data['target'][0] == 'attr' and \
+                                'initial_request_n' in str(e.data['target'][2]) and npar in _flat(e.data['value'].term):
+                            carried = True
+                if not carried:
+                    rep.bad('C08.m', '%s.request / credit asked for before the request frame is carried by it' % h.name,
+                            en.func, 'request(n) before subscribe() has written the request frame neither writes '
+                                     'REQUEST_N nor adds n to the initial request-n: the credit is lost')
+                    continue
             rep.add('C08.m', '%s.%s / before subscribe() it writes nothing' % (h.name, en.func.node.name), en.func,
                     out is None,
                     'no frame is queued in the constructor\'s state' if out is None else
